@@ -58,7 +58,8 @@ Allowed(st, ev) ==
     [] ev.e = "malloc" ->
          \* in the window: a pointer inside the region, or null; outside: null
          IF st.status[ev.s] = "cr" THEN ev.out \in {"in", "null"} ELSE ev.out = "null"
-    [] ev.e = "free" -> ev.out = "ok"
+    \* outside the create..destroy window a free is ignored: it never reaches the backend's allocator
+    [] ev.e = "free" -> ev.out = "ok" /\ (("reached" \in DOMAIN ev /\ ~ev.live) => ~ev.reached)
     [] ev.e = "register" ->
          /\ st.own[ev.o].k = "none"
          /\ IF st.status[ev.s] # "cr" THEN ev.out = "abort"
